@@ -983,7 +983,17 @@ def main():
     elif quick:
         full_cyclic = [("cyclic", cyclic_family(REPO))]
         pick = [(g, es) for g, es in groups if g in ("oddvalues", "escaped", "formattext", "multi")]
+        # the optional minijinja-contrib features only exist in this build: their width / count / range boundaries
+        nums = ["0", "1", "-1", "100000", "1000001", "253402207200", "253402300800", "1000000000000", "-1000000000000", "9223372036854775807", "-9223372036854775808", "18446744073709551615", "1e308", "-1e308"]
+        contrib_group = []
+        contrib_group.append(("contribfeatures", split_exprs([t.replace("N", n) for n in nums for t in (
+            "{{ lipsum(N)|length }}", "{{ lipsum(1, min=N, max=N)|length }}", "{{ lipsum(n=2, min=1, max=N, html=true)|length }}", "{{ lipsum(1, min=N, max=1)|length }}", "{{ randrange(N) }}", "{{ randrange(N, 5) }}",
+            "{{ randrange(-9223372036854775808, N) }}", "{{ N|dateformat }}", "{{ N|timeformat }}", "{{ N|datetimeformat }}", "{{ N|datetimeformat(format='iso') }}", "{{ [1, 2, 3]|random }}", "{{ 'abc def'|wordwrap(N) }}",
+            "{{ 'abc def'|wordwrap(width=N, break_long_words=false) }}", "{{ 'abc def'|wordcount }}", "{{ 'abc def'|truncate(N) }}", "{{ N|filesizeformat }}", "{{ N|pluralize }}", "{{ '&#N;&amp;'|striptags }}", "{{ 'abc'.center(N)|length }}",
+            "{{ 'abc'.ljust(N)|length }}", "{{ 'a,b'.split(',', N) }}", "{{ 'abc'.zfill(N)|length }}", "{{ '{:N}'.format(1)|length }}", "{{ '{:.Nf}'.format(1.5)|length }}", "{{ 'abc'.replace('b', 'c', N) }}", "{{ [1, 2].index(N) }}",
+            "{{ 'abc'.find('b', N) }}", "{{ 'abc'.count('b', N, N) }}", "{{ {'a': 1}.get(N) }}", "{{ 'a\u00e9'.encode is defined }}", "{{ '\u00e9{a[\u00e9]}'.format(a={'\u00e9': 1}) }}")])))
         alt_passes = [("alt:cyclic", "prog", full_cyclic, prog_req, 2000000, 2000, 4, 4, lambda: Budget(seconds=15, max_bad=25)),
+                      ("alt:contrib", "prog", contrib_group, prog_req, 2000000, 2000, 4, 4, lambda: Budget(seconds=10, max_bad=25)),
                       ("alt:families", "prog", pick, prog_req, 8000000, WATCHDOG_MS, 12, 64, lambda: Budget(max_bad=16)),
                       ("alt:line", "c01", line_groups, c01_req, 8000000, WATCHDOG_MS, 12, 64, lambda: Budget(max_bad=16))]
     else:
